@@ -541,6 +541,7 @@ func runC13(c *Ctx) {
 	checkReadReplyTruthTable(c, "R20")
 	// R21 (shared with C12.R19): an error is returned only when the server failed a chunk — SSH_FX_OK is no failure
 	checkStatusCaseNextToDataCase(c, "R21", true)
+	checkKnownErrorNotAnsweredWithNil(c, "R22")
 
 	// R7: ReadFrom / ReadFromWithConcurrency leave the File offset at the end of the intact prefix
 	checkOffsetStores(c, "R7", map[string]bool{"(*File).ReadFrom": true, "(*File).readFromWithConcurrency": true})
@@ -2156,4 +2157,136 @@ func checkAtMethodsUseTheirOffset(c *Ctx, rule string) {
 		c.check(!readsPos && passes && calls >= 1, rule, name+" transfers at its argument", p.Pos(fn.Pos()), "the helper gets the caller's offset; the implicit position is not read",
 			name+" does not transfer at the offset it was given (it reads the File's implicit position, or hands another offset to its helper): a positional read or write lands somewhere else")
 	}
+}
+
+// checkKnownErrorNotAnsweredWithNil (C13.R22, shared as C04.R16): where a transfer function has just found that an
+// error is there (the return sits on the non-nil side of a test of it, with no further test of that error — an
+// `== io.EOF`, an errors.Is — in between), it does not return a nil error.  The count it returns there is short by
+// construction, and a short count with a nil error is what the property excludes; after a lost connection it is the
+// caller's only notice.
+func checkKnownErrorNotAnsweredWithNil(c *Ctx, rule string) {
+	p := c.P
+	n := 0
+	pathOf := func(v ssa.Value) string {
+		if u, ok := v.(*ssa.UnOp); ok && u.Op == token.MUL {
+			if r, s := accessPath(u.X); r != nil {
+				return fmt.Sprintf("%p.%s", r, s)
+			}
+		}
+		return fmt.Sprintf("%p", v)
+	}
+	for _, fn := range p.LibFuncs() {
+		o := outermost(fn)
+		if o.Package() != p.Sftp || o.Signature.Recv() == nil || typeName(o.Signature.Recv().Type()) != "File" {
+			continue
+		}
+		res := fn.Signature.Results()
+		if res.Len() < 2 || res.At(res.Len()-1).Type().String() != "error" {
+			continue
+		}
+		ord := 0
+		eachInstr(fn, func(in ssa.Instruction) {
+			ret, ok := in.(*ssa.Return)
+			if !ok || !isReturn(in) || len(ret.Results) < 2 {
+				return
+			}
+			last := ret.Results[len(ret.Results)-1]
+			// the chain of guards from the return upwards
+			var known ssa.Value
+			for cur := ret.Block(); cur != nil && known == nil; cur = cur.Idom() {
+				d := cur.Idom()
+				if d == nil || len(cur.Preds) != 1 || cur.Preds[0] != d {
+					continue
+				}
+				iff, ok := d.Instrs[len(d.Instrs)-1].(*ssa.If)
+				if !ok || len(d.Succs) != 2 || d.Succs[0] == d.Succs[1] {
+					continue
+				}
+				truth := d.Succs[0] == cur
+				// a nil test of an error ends the search: on its non-nil side the error is known to be there
+				if bo, ok := iff.Cond.(*ssa.BinOp); ok && (bo.Op == token.NEQ || bo.Op == token.EQL) && isNilConst(bo.Y) && bo.X.Type().String() == "error" {
+					if (bo.Op == token.NEQ) == truth {
+						known = bo.X
+					}
+					break
+				}
+				// a test that singles an error out (x == io.EOF, errors.Is(x, …)): on the side where it is that
+				// error the nil is deliberate; on the other side the search goes on
+				mentionsErr, neg := false, false
+				cond := iff.Cond
+				if u, ok := cond.(*ssa.UnOp); ok && u.Op == token.NOT {
+					cond, neg = u.X, true
+				}
+				switch x := cond.(type) {
+				case *ssa.BinOp:
+					if x.X.Type().String() == "error" && (x.Op == token.EQL || x.Op == token.NEQ) {
+						mentionsErr = true
+						if x.Op == token.NEQ {
+							neg = !neg
+						}
+					}
+				case *ssa.Call:
+					for _, a := range x.Call.Args {
+						if a.Type().String() == "error" {
+							mentionsErr = true
+						}
+					}
+				}
+				if mentionsErr && truth == neg {
+					continue // "it is not that error": still an error
+				}
+				break
+			}
+			if known == nil {
+				return
+			}
+			// what is returned there: the error itself (or something made from it), or an error made on the spot
+			kp := pathOf(known)
+			mentions := false
+			var walk func(v ssa.Value, d int)
+			walk = func(v ssa.Value, d int) {
+				if d > 4 || v == nil || mentions {
+					return
+				}
+				if v == known || pathOf(v) == kp {
+					mentions = true
+					return
+				}
+				switch x := v.(type) {
+				case *ssa.Phi:
+					for _, e := range x.Edges {
+						walk(e, d+1)
+					}
+				case *ssa.Call:
+					for _, a := range x.Call.Args {
+						walk(a, d+1)
+					}
+				case *ssa.MakeInterface:
+					walk(x.X, d+1)
+				case *ssa.ChangeInterface:
+					walk(x.X, d+1)
+				case *ssa.Extract:
+					walk(x.Tuple, d+1)
+				case *ssa.UnOp:
+					if a, ok := x.X.(*ssa.Alloc); ok && x.Op == token.MUL {
+						for _, st := range reachingStores(x, a) {
+							walk(st.Val, d+1)
+						}
+					}
+				case *ssa.Alloc:
+					for _, r := range *x.Referrers() {
+						if st, ok := r.(*ssa.Store); ok {
+							walk(st.Val, d+1)
+						}
+					}
+				}
+			}
+			walk(last, 0)
+			n++
+			ord++
+			c.check(mentions || p.errNeverNil(last, ret.Block(), nil, 0), rule, fmt.Sprintf("%s: return #%d behind a non-nil error", fnName(fn), ord), p.Pos(ret.Pos()), "returns that error, or one made there",
+				"this return is taken exactly when an error is known to be there, and what it returns is another variable that can be nil: the short count comes without the error that explains it")
+		})
+	}
+	c.okT(rule, "returns directly behind a non-nil error test examined", "?", fmt.Sprintf("%d", n))
 }
